@@ -668,3 +668,102 @@ func sliceThroughHelpers(v ssa.Value, pkg *ssa.Package, depth int) map[ssa.Value
 	}
 	return out
 }
+
+// renderVal prints an SSA value as an access-path expression over parameters, fields, constants
+// and calls (no register names), for comparing conditions of sibling functions.
+func renderVal(v ssa.Value, depth int) string {
+	if depth > 8 {
+		return "…"
+	}
+	v = engine.Unwrap(v)
+	switch x := v.(type) {
+	case *ssa.Const:
+		if x.Value == nil {
+			return "nil"
+		}
+		return x.Value.ExactString()
+	case *ssa.Parameter:
+		if x.Parent() != nil && len(x.Parent().Params) > 0 && x.Parent().Params[0] == x && x.Parent().Signature.Recv() != nil {
+			return "recv"
+		}
+		return "param:" + x.Type().String()
+	case *ssa.FreeVar:
+		return "free:" + x.Name()
+	case *ssa.UnOp:
+		if x.Op == token.MUL {
+			return renderVal(x.X, depth+1)
+		}
+		return x.Op.String() + renderVal(x.X, depth+1)
+	case *ssa.FieldAddr:
+		_, fld, _ := engine.FieldOf(x)
+		return renderVal(x.X, depth+1) + "." + fld
+	case *ssa.Field:
+		st, _ := x.X.Type().Underlying().(*types.Struct)
+		name := "?"
+		if st != nil {
+			name = st.Field(x.Field).Name()
+		}
+		return renderVal(x.X, depth+1) + "." + name
+	case *ssa.BinOp:
+		return "(" + renderVal(x.X, depth+1) + " " + x.Op.String() + " " + renderVal(x.Y, depth+1) + ")"
+	case *ssa.Call:
+		var as []string
+		for _, a := range engine.CallArgs(x) {
+			as = append(as, renderVal(a, depth+1))
+		}
+		return engine.CallID(x) + "(" + strings.Join(as, ",") + ")"
+	case *ssa.Alloc:
+		// a spilled parameter / local: its single stored value
+		if sts := engine.StoresTo(x); len(sts) == 1 {
+			return renderVal(sts[0].Val, depth+1)
+		}
+		return "local:" + x.Type().String()
+	case *ssa.Convert:
+		return renderVal(x.X, depth+1)
+	case *ssa.ChangeType:
+		return renderVal(x.X, depth+1)
+	case *ssa.Slice:
+		return renderVal(x.X, depth+1) + "[:]"
+	case *ssa.IndexAddr:
+		return renderVal(x.X, depth+1) + "[" + renderVal(x.Index, depth+1) + "]"
+	case *ssa.Index:
+		return renderVal(x.X, depth+1) + "[" + renderVal(x.Index, depth+1) + "]"
+	case *ssa.Lookup:
+		return renderVal(x.X, depth+1) + "[" + renderVal(x.Index, depth+1) + "]"
+	case *ssa.MakeInterface:
+		return renderVal(x.X, depth+1)
+	}
+	return "?" + v.Type().String()
+}
+
+// controlSig renders every branch condition that controls block b (a branch successor with a
+// single predecessor that dominates b), sorted.
+func controlSig(b *ssa.BasicBlock) []string {
+	var out []string
+	for _, d := range b.Parent().Blocks {
+		if len(d.Instrs) == 0 || d == b {
+			continue
+		}
+		iff, ok := d.Instrs[len(d.Instrs)-1].(*ssa.If)
+		if !ok {
+			continue
+		}
+		branch := -1
+		for i, s := range d.Succs {
+			if len(s.Preds) == 1 && s.Dominates(b) {
+				branch = i
+			}
+		}
+		if branch < 0 {
+			continue
+		}
+		cond, neg := stripNot(iff.Cond)
+		s := renderVal(cond, 0)
+		if (branch == 0) == neg {
+			s = "!" + s
+		}
+		out = append(out, s)
+	}
+	sort.Strings(out)
+	return out
+}
